@@ -6,7 +6,7 @@ import (
 	v "github.com/sboehler/knut/lib/zzverif"
 )
 
-var zzMapNames = []string{"Assets:A", "Assets:B:C", "Expenses:Y:Z", "Liabilities:L:M:N:O"}
+var zzMapNames = []string{"Assets:A", "Expenses:Y:Z", "Liabilities:L:M:N:O"}
 
 // VerifMappingFlag: C14 for the values of -m <level>[:<suffix>][,<regex>]. Whatever
 // integers the flag text holds (signs and digits symbolic), the flag either
@@ -29,11 +29,9 @@ func VerifMappingFlag() {
 	}
 	reg := account.NewRegistry()
 	m := account.Shorten(reg, f.Value())
-	for round := 0; round < 2; round++ {
-		for _, name := range zzMapNames {
-			a := reg.MustGet(name)
-			p, _ := v.Try(func() { m(a) })
-			v.Assert(!p, "no-panic")
-		}
+	for _, name := range zzMapNames {
+		a := reg.MustGet(name)
+		p, _ := v.Try(func() { m(a) })
+		v.Assert(!p, "no-panic")
 	}
 }
